@@ -1,3 +1,52 @@
-(* C11 - placeholder while the invariant is built *)
-From Tramp Require Import Model.Base Model.Sys.
-Theorem C11_placeholder : True. Proof. exact I. Qed.
+(* C11 — incomplete multi-part sets fail at the MPP timeout: not before, not much later.
+
+   "A set of HTLCs that never reaches the required total, for a payment with no outgoing attempt pending
+    or completed, is failed back with a temporary trampoline failure once the configured MPP timeout has
+    elapsed since the plugin began waiting for it, and no outgoing payment is started for it. For a set
+    with no earlier attempt this never happens before the timeout unless a policy rejection occurs, and
+    a restart never grants more than one further timeout period."
+
+   PARTIAL as to real time: [now] is the model's virtual clock (tokio's paused clock in the correspondence);
+   the 1 ms granularity of tokio's timer wheel and the OS clock are runtime. *)
+From Tramp Require Import Model.Base Model.Fee Model.Classify Model.Node Model.Provider Model.Sys.
+From Tramp Require Import Proofs.SysBasics Proofs.EntryProofs Proofs.SysEntry Proofs.SysShape Proofs.SysTheorems Proofs.SysTimers Proofs.SysReach.
+From Coq Require Import ZifyBool ZifyN.
+
+(* every lifecycle sleeping in the select! has its deadline strictly ahead and at most one MPP timeout away *)
+Theorem C11_deadline_window : forall c s i x dl,
+  reachable c s -> nth_error (lcs (pl s)) i = Some x -> l_pc x = PSelect dl -> now s < dl /\ dl <= now s + mpp_ms c.
+Proof. intros c s i x dl Hr. destruct (reachable_inv c s Hr) as (_ & _ & HT). exact (HT i x dl). Qed.
+
+(* not before: a tick that does not reach any deadline changes nothing but the clock *)
+Theorem C11_not_before : forall c s dt,
+  (forall i x dl, nth_error (lcs (pl s)) i = Some x -> l_pc x = PSelect dl -> now s + dt < dl) ->
+  step c s (EvTick dt) = ({| nd := nd s; pl := pl s; calls := calls s; now := now s + dt; height := height s |}, []).
+Proof. exact tick_before_deadline. Qed.
+
+(* at the timeout: every HTLC held is failed with temporary_trampoline_failure, the entry is dropped, no RPC is issued *)
+Theorem C11_at_timeout : forall c s dt en i x dl,
+  entry_ (pl s) = Some en -> nth_error (lcs (pl s)) i = Some x -> l_pc x = PSelect dl -> dl <= now s + dt ->
+  resps (snd (step c s (EvTick dt))) = map (fun h => OResp (hid h) r_tramp_fail) (listeners en) /\
+  entry_ (pl (fst (step c s (EvTick dt)))) = None /\
+  (forall cid q, ~ In (OCall cid q) (snd (step c s (EvTick dt)))).
+Proof. exact tick_at_deadline. Qed.
+
+(* how long the lifecycle will wait when it goes to the select!: the full timeout when the stored state was Free/absent,
+   the timeout minus the age of the interrupted attempt after a restart — never more than one timeout *)
+Theorem C11_restart_bound : forall c li base tnow p cid y d,
+  lc_shape c li base tnow p cid y = Some (LSelect d) ->
+  d <= mpp_ms c /\
+  ((exists k, p = PFetch k /\ d = mpp_ms c) \/ (exists k a g t, p = PMarkF2 k a g t /\ d = mpp_ms c - (tnow - t))).
+Proof.
+  intros c li base tnow p cid y d H. split; [exact (select_deadline_bound _ _ _ _ _ _ _ _ H)|].
+  destruct (lc_shape_select_attached _ _ _ _ _ _ _ _ H) as (_ & _ & [(k & ->)|(k & a & g & t & ->)]).
+  - left. exists k. split; [reflexivity|]. unfold lc_shape in H. destruct (negb _); [discriminate|].
+    destruct y as [[[[| | |] ?]|]| | | | | | | |]; inversion H; reflexivity.
+  - right. exists k, a, g, t. split; [reflexivity|]. unfold lc_shape in H. destruct (negb _); [discriminate|].
+    destruct y; inversion H; reflexivity.
+Qed.
+
+(* zero time left (the interrupted attempt is older than the timeout): failed at once *)
+Theorem C11_zero_left_fails_now : forall c li base hgt tnow e sel na,
+  enter_select c li base hgt tnow 0 e sel na = do_resolve e r_tramp_fail PEnd [] [] [] na.
+Proof. reflexivity. Qed.
